@@ -8,8 +8,8 @@ the non-test source, grouped by module; the obligation below says that this grou
 import WowSrp.Gen.Constants
 namespace WowSrp
 
-def expected_structuralNStr : List String := ["NormalizedString @src/normalized_string.rs: PartialEq Eq Hash Ord PartialOrd Clone"]
+def expected_structuralNStr : List String := ["NormalizedString @src/normalized_string.rs: PartialEq Eq Hash Ord PartialOrd Clone | s length u8"]
 
-theorem structuralNStr_ok : Gen.structuralNStr = expected_structuralNStr := by decide
+theorem structuralNStr_ok : Gen.structuralNStr = expected_structuralNStr := by decide +kernel
 
 end WowSrp
